@@ -442,6 +442,103 @@ func genRouteLong(quick bool, emit func(Data)) {
 	}
 }
 
+// family nested: a relation that produces a feature (route, multipolygon,
+// boundary, old-style multipolygon emitted under its outer way's identity) or
+// does not (site) is itself a member of one or two parent relations
+// (route_master, site, untyped, route). The child's numeric id (7) is shared
+// by no other element, by a way, by a node, or by both; with "cross" the
+// parent also lists way 7, node 7 and a relation whose id only a way carries,
+// so that ids overlap across kinds in both directions. The feature of the
+// child must list exactly its memberships, like any other feature.
+func genNested(quick bool, emit func(Data)) {
+	childKinds := []string{"route", "multipolygon", "boundary", "oldstyle-multipolygon", "site"}
+	parentTags := map[string][]Tag{
+		"route_master": {{"type", "route_master"}, {"route_master", "bus"}, {"ref", "7"}},
+		"site":         {{"type", "site"}, {"name", "S"}},
+		"untyped":      nil,
+		"route":        {{"type", "route"}, {"route", "hiking"}},
+	}
+	parentKinds := []string{"route_master", "site", "untyped", "route"}
+	metas := []int{0, 1, 3}
+	if quick {
+		metas = []int{1}
+	}
+	const child = 7
+	for _, ck := range childKinds {
+		for share := 0; share < 4; share++ { // bit 0: a way has id 7, bit 1: a node has id 7
+			for _, pk := range parentKinds {
+				for _, role := range []string{"", "variant"} {
+					for second := 0; second < 2; second++ {
+						for order := 0; order < 2; order++ {
+							for cross := 0; cross < 2; cross++ {
+								for _, mp := range metas {
+									d := Data{Family: "nested", Name: fmt.Sprintf("nested/%s/share%b/parent=%s/role=%q/second%d/order%d/cross%d/meta%d", ck, share, pk, role, second, order, cross, mp)}
+									c := DRel{ID: child, Meta: metaPat(mp, child)}
+									switch ck {
+									case "route":
+										d.Ways = append(d.Ways, mkWay(1, nil, metaPat(mp, 1), 11, 12), mkWay(2, []Tag{{"highway", "primary"}}, metaPat(mp+1, 2), 13, 12))
+										c.Tags = []Tag{{"type", "route"}, {"route", "bus"}}
+										c.Members = []DMember{{Type: "way", Ref: 1}, {Type: "way", Ref: 2, Role: "forward"}}
+									case "multipolygon", "boundary":
+										d.Ways = append(d.Ways, mkWay(1, nil, metaPat(mp, 1), 1, 2, 3, 4, 1))
+										c.Tags = []Tag{{"type", ck}, {"landuse", "forest"}}
+										c.Members = []DMember{{Type: "way", Ref: 1, Role: "outer"}}
+									case "oldstyle-multipolygon":
+										d.Ways = append(d.Ways, mkWay(1, []Tag{{"building", "yes"}}, metaPat(mp, 1), 1, 2, 3, 4, 1))
+										c.Tags = []Tag{{"type", "multipolygon"}}
+										c.Members = []DMember{{Type: "way", Ref: 1, Role: "outer"}}
+									case "site":
+										d.Ways = append(d.Ways, mkWay(1, []Tag{{"highway", "path"}}, metaPat(mp, 1), 11, 12))
+										c.Tags = []Tag{{"type", "site"}}
+										c.Members = []DMember{{Type: "way", Ref: 1}}
+									}
+									if share&1 != 0 {
+										d.Ways = append(d.Ways, mkWay(child, []Tag{{"highway", "path"}}, metaPat(mp+2, child), 15, 16))
+									}
+									if share&2 != 0 {
+										d.Nodes = append(d.Nodes, mkNode(child, true, []Tag{{"name", "seven"}}, metaPat(mp+3, child)))
+									}
+									p := DRel{ID: 8, Tags: parentTags[pk], Meta: metaPat(mp+1, 8)}
+									if pk == "route" {
+										// a parent that has a geometry of its own
+										d.Ways = append(d.Ways, mkWay(3, nil, metaPat(mp, 3), 17, 18))
+										p.Members = append(p.Members, DMember{Type: "way", Ref: 3})
+									}
+									p.Members = append(p.Members, DMember{Type: "relation", Ref: child, Role: role})
+									if cross == 1 {
+										p.Members = append(p.Members,
+											DMember{Type: "way", Ref: child, Role: "w"},
+											DMember{Type: "node", Ref: child, Role: "n"},
+											DMember{Type: "relation", Ref: 1, Role: "ghost"}, // way 1 exists, relation 1 does not
+											DMember{Type: "relation", Ref: 8, Role: "self"})
+									}
+									rels := []DRel{c, p}
+									if second == 1 {
+										// a second parent lists the child again and the first parent
+										rels = append(rels, DRel{ID: 9, Tags: []Tag{{"type", "network"}, {"network", "N"}}, Meta: metaPat(mp+2, 9), Members: []DMember{
+											{Type: "relation", Ref: 8, Role: "master"},
+											{Type: "relation", Ref: child, Role: "direct"},
+											{Type: "relation", Ref: child, Role: role},
+										}})
+									}
+									if order == 1 {
+										for i, j := 0, len(rels)-1; i < j; i, j = i+1, j-1 {
+											rels[i], rels[j] = rels[j], rels[i]
+										}
+									}
+									d.Rels = rels
+									nodesFor(&d, nil, mp+1)
+									emit(d)
+								}
+							}
+						}
+					}
+				}
+			}
+		}
+	}
+}
+
 // family route-topology: three member ways in other arrangements than a chain.
 func genRouteTopology(emit func(Data)) {
 	type topo struct {
@@ -678,6 +775,7 @@ func enumerate(quick bool) []Data {
 	genRouteTopology(emit)
 	genArea(emit)
 	genOther(emit)
+	genNested(quick, emit)
 	genMixed(quick, emit)
 	return out
 }
